@@ -137,4 +137,11 @@ CLAIMED["C20"] = {
 }
 ENGINES[0]["serves_properties"] = ["C01", "C02", "C03", "C04", "C05", "C06", "C09", "C10", "C12", "C13", "C14", "C15", "C17", "C18", "C19", "C20"]
 ENGINES[2]["serves_properties"] = ["C01", "C02", "C10", "C18", "C19", "C20"]
-NOT_CLAIMED = {"C08": "check under construction in this round (builder still running); will be claimed once it runs silent on the unchanged tree"}
+CLAIMED["C08"] = {
+    "engine": "seqspace",
+    "technique": "exhaustive product of a catalogue (molecule or 2-qubit Hamiltonian x ansatz x mapping spelling x ordering x parameter vector x reference-state / projective / deflation / penalty options) against numpy <psi|H|psi> of exactly the circuit the solver runs",
+    "text": "286 (thorough 636) solver configurations over H2, H3 doublet, H3+ triplet, H4, H4 with frozen orbitals (thorough LiH) and a bare 2-qubit Hamiltonian x 12 ansaetze x JW/BK/scBK(3 spellings)/JKMN (HCB for pUCCD) x both orderings; per configuration every variant of reference-state override, projective circuit, deflation circuits x coefficients and penalty terms over a 5-vector parameter alphabet: energy_estimation equals <psi|H|psi> of the numpy statevector of reference + ansatz (+ post-selected projective) circuit, is >= lambda_min(H), the deflation increment equals sum_k c |<phi_k|psi>|^2, N/Sz/S^2 expectation values equal those of the reference Fock-space operators under the solver's own encoding (HCB: physical pair embedding), the target Hamiltonian is restored afterwards, and the zero vector gives the mean-field energy for UCC-type ansaetze.",
+    "note": "Trusted: numpy reference simulator, mc/ref/fermion.py. Counted as loud refusals, not violations: occupation-vector ref_state with QMF/QCC/ILC/pUCCD (build raises), deflation together with a projective circuit (MEASURE not invertible). Not covered: sampled/noisy backends (C02/C19), systems > 8 qubits in full product.",
+}
+ENGINES[0]["serves_properties"].append("C08")
+NOT_CLAIMED = {}
